@@ -278,6 +278,22 @@ func (it *Interp) sampleSat(c *smt.Term) bool {
 		return false
 	}
 	rs := it.ranges()
+	type sampleKey struct{ id, npc int }
+	cache, _ := it.M.extra["sample.cache"].(map[sampleKey]bool)
+	if cache == nil {
+		cache = map[sampleKey]bool{}
+		it.M.extra["sample.cache"] = cache
+	}
+	key := sampleKey{c.ID, len(it.P.PC)}
+	if v, ok := cache[key]; ok {
+		return v
+	}
+	res := it.sampleSat1(rs, c)
+	cache[key] = res
+	return res
+}
+
+func (it *Interp) sampleSat1(rs *rangeState, c *smt.Term) bool {
 	var vars []*smt.Term
 	seen := map[*smt.Term]bool{}
 	collectVars(c, seen, &vars)
